@@ -77,7 +77,7 @@ static CO_ERR COTParaStoreRead(struct CO_OBJ_T *obj, struct CO_NODE_T *node, voi
     } else {
         ASSERT_EQU_ERR(size, COT_ENTRY_SIZE, CO_ERR_BAD_ARG);
         pg = (CO_PARA *)(obj->Data);
-        *(uint32_t *)buffer = pg->Value;
+        CO_BUF_SET(buffer, pg->Value);
         result = CO_ERR_NONE;
     }
     return (result);
@@ -103,7 +103,7 @@ static CO_ERR COTParaStoreWrite(struct CO_OBJ_T *obj, struct CO_NODE_T *node, vo
     } else {
         /* check store signature */
         ASSERT_EQU_ERR(size, COT_ENTRY_SIZE, CO_ERR_BAD_ARG);
-        value = *((uint32_t *)buffer);
+        CO_BUF_GET(value, buffer);
         if (value != CO_PARA_STORE_SIG) {
             return (CO_ERR_TYPE_WR);
         }
